@@ -26,7 +26,7 @@ CONF = {
     "C20": dict(also=dict(quick=[("C20P", 700)], thorough=[("C20P", 20000)]), level="fault_enumeration", workers=16, quick=dict(cases=500, size=50), thorough=dict(cases=12000, size=80)),
     "C01": dict(level="exploration", workers=16, quick=dict(cases=220, size=60), thorough=dict(cases=4000, size=100)),
     "C02": dict(level="exploration", workers=16, quick=dict(cases=4000, size=60), thorough=dict(cases=60000, size=100)),
-    "C03": dict(also=dict(quick=[("C18Q", 600)], thorough=[("C18Q", 10000)]), level="exploration", workers=16, quick=dict(cases=4000, size=60), thorough=dict(cases=75000, size=100)),
+    "C03": dict(also=dict(quick=[("C18Q", 600), ("C04", 800)], thorough=[("C18Q", 10000), ("C04", 12000)]), level="exploration", workers=16, quick=dict(cases=4000, size=60), thorough=dict(cases=75000, size=100)),
     "C04": dict(level="exploration", workers=16, quick=dict(cases=4000, size=80), thorough=dict(cases=60000, size=100)),
     "C05": dict(level="exploration", workers=16, quick=dict(cases=500, size=60), thorough=dict(cases=48000, size=100)),
     "C06": dict(level="exploration", workers=16, quick=dict(cases=1500, size=70), thorough=dict(cases=60000, size=100)),
